@@ -320,7 +320,8 @@ class InstAnalysis:
                 for (r2, p2) in self.val_of_operand(a):
                     out.add((r2, p2))
                 continue
-            direct = aty.get('ref') is not None
+            # `Option<&mut T>` is the reference it may hold: callee paths below it are paths below the pointee
+            direct = aty.get('ref') is not None or aty.get('s', '').startswith(('std::option::Option<&', 'core::option::Option<&'))
             for (r2, p2) in self.val_of_operand(a):
                 out.add((r2, p2 + path if direct else p2))
         return out
